@@ -56,6 +56,10 @@ for _ln, _first in (("L5", False), ("L6", True)):
         LAYOUTS[_ln][_eid] = dict(_d, saml11={"first": _first, "sp": {"keys": [("signing", 9)], "acs": [(POST, _h + "/legacy/acs", 1, True), (REDIR, _h + "/legacy/acs-r", 3, None),
                                                                                                         (POST, _h + "/legacy/acs9", 9, None)],
                                                                        "slo": [(REDIR, _h + "/legacy/slo"), (POST, _h + "/legacy/slo-post")], "mni": [(SOAP, _h + "/legacy/mni")]}})
+# SPs whose metadata has expired - only just, and written in a zone far from UTC: as good as absent
+import time as _time
+for _ln, _zone in (("L7", "+02:00"), ("L8", "+14:00"), ("L9", "Z"), ("L10", "-05:00")):
+    LAYOUTS[_ln] = {fed.SP_EID: dict(LAYOUTS["L1"][fed.SP_EID]), fed.SP2_EID: dict(LAYOUTS["L1"][fed.SP2_EID], expired=_zone)}
 # ... and the same with the look-alikes in front of the real SP
 LAYOUTS["L4"] = dict([(k, v) for k, v in LAYOUTS["L3"].items() if k not in LAYOUTS["L1"]] + list(LAYOUTS["L1"].items()))
 
@@ -210,6 +214,13 @@ def _idp(ctx, lname, idpopt="default"):
         mds = []
         for eid, d in LAYOUTS[lname].items():
             ent = {"eid": eid, "sp": {"keys": [("signing", 1 if eid == fed.SP_EID else 3)], "acs": d["acs"], "slo": d["slo"], "mni": d["mni"]}}
+            if d.get("expired"):
+                # half an hour ago, as local time of that zone
+                z = d["expired"]
+                t = _time.time() - 1800
+                if z != "Z":
+                    t += (1 if z[0] == "+" else -1) * (int(z[1:3]) * 3600 + int(z[4:6]) * 60)
+                ent["valid_until"] = _time.strftime("%Y-%m-%dT%H:%M:%S", _time.gmtime(t)) + z
             if d.get("saml11"):
                 ent["saml11"] = d["saml11"]
             mds.append(mdgen.entity(ent))
@@ -265,7 +276,8 @@ def run_case(case, ctx):
         exc = None
     except Exception as e:
         info, exc = None, e
-    registered = layout.get(case["issuer"], {}).get(service, [])
+    known = case["issuer"] in layout and not layout[case["issuer"]].get("expired")
+    registered = layout.get(case["issuer"], {}).get(service, []) if known else []
     reg_by_binding = {}
     for ent in registered:
         reg_by_binding.setdefault(ent[0], []).append(ent)
@@ -279,8 +291,9 @@ def run_case(case, ctx):
         outcome = "answer:%s" % (b or "-").split(":")[-1]
         if b == SOAP and d == "" and case.get("bindings") == [SOAP]:
             outcome = "answer:soap-back-channel"
-        elif case["issuer"] not in layout:
-            viol.append({"key": "C09/destination-for-unknown-requester", "what": desc + " -> %s %s" % (b, d)})
+        elif not known:
+            viol.append({"key": "C09/destination-for-unknown-requester", "what": desc + (" (its metadata expired half an hour ago, validUntil written in zone %s)" % layout[case["issuer"]]["expired"]
+                                                                                            if case["issuer"] in layout else "") + " -> %s %s" % (b, d)})
         else:
             locs = [e[1] for e in reg_by_binding.get(b, [])]
             if d not in locs:
